@@ -39,6 +39,11 @@ def generate(rng, tier):
     else:
         browsers.append({"id": "b0", "types": types[:1]})
         browsers.append({"id": "b1", "types": types[1:rng.choice([2, 3])]})
+    sub = None
+    if nb == 1 and len(browsers[0]["types"]) >= 2 and rng.random() < 0.4:
+        # a subtype of the first browsed type is browsed as well: one instance then has two pointer records
+        sub = "_printer._sub." + browsers[0]["types"][0]
+        browsers[0]["types"][1] = sub
     ops = []
     for b in browsers:
         b["delay"] = rng.choice([1000, 2000, 10000, 10000, 60000])
@@ -55,6 +60,11 @@ def generate(rng, tier):
         ty = rng.choice(all_types)
         name = f"I{i}.{ty}"
         ttl = rng.choice([60, 1125, 1200, 1200, 2000, 4500, 4500, 9000])
+        if ty == sub:
+            # the instance is advertised under its base type and under the subtype (same instance name)
+            name = f"I{i}.{browsers[0]['types'][0]}"
+            ops.append(_ptr(t + rng.choice([-0.6, -0.001, 0.0, 0.6]), browsers[0]["types"][0], name,
+                            rng.choice([ttl, 4500])))
         insts.append((ty, name, ttl))
         ops.append(_ptr(t, ty, name, ttl))
         life = max(ttl, 1125)
@@ -77,11 +87,22 @@ def generate(rng, tier):
         if rng.random() < 0.25:
             ops.append({"t": round(rng.choice([5.0, 100.0, 900.0, 1500.0, 3000.0]) + rng.random(), 6), "op": "cancel",
                         "h": "B", "id": b["id"]})
-    ops = [o for o in ops if o["t"] < horizon - 1.0]
+    ops = [o for o in ops if 0.0 <= o["t"] < horizon - 1.0]
     ops.sort(key=lambda o: o["t"])
     faults = {"max_delay_us": rng.choice([0, 1000, 100000]), "loop_delay_us": rng.choice([0, 1000]),
               "dup_p": rng.choice([0.0, 0.1])}
     return {"timer_slop_us": rng.choice([0, 0, 1, 50, 300]), "ops": ops, "faults": faults, "end": horizon, "browsers": browsers}
+
+
+def _kept_slot_cause(hist, k, lo, delay, tq, first_deadline):
+    """Names the one way the library is known to be later than `delay`: the record was refreshed, its new 75 % point lies
+    within `delay` of the old one so the old slot is kept (it may be later than the new point), and the browser's
+    minimum time between queries - another type was asked just before - then adds up to one more `delay`."""
+    if k > 0 and hist[k - 1][1] == "set":
+        old_lo = hist[k - 1][2] / 1000.0 + 0.75 * hist[k - 1][3]
+        if abs(old_lo - lo) <= delay and any(first_deadline < t <= lo + 2 * delay + SLACK for t in tq):
+            return "kept-slot-and-rate-limit"
+    return None
 
 
 def _ptr(t, ty, name, ttl):
@@ -278,7 +299,8 @@ def _oracle(w, drv, sc, model, updates, out):
                             f"{w.rel(c):.3f}) got no refresh query in [{w.rel(lo) - delay:.3f}, {w.rel(first_deadline):.3f}]"
                             f"; it {'expired at' if seg_end == expiry else 'was current until'} {w.rel(seg_end):.3f}; "
                             f"queries for the type at {[round(w.rel(t), 3) for t in tq][-6:]}",
-                            earlier_longer=_earlier_longer(per, ident, c, ttl))
+                            earlier_longer=_earlier_longer(per, ident, c, ttl),
+                            cause=_kept_slot_cause(hist, k, lo, delay, tq, first_deadline))
                     continue
 
                 # some chain q1 < q2 < ... of queries for the type must fit the 10 % steps, each <= delay late
